@@ -45,6 +45,8 @@ pub enum Framing {
     ContentLength,
     Chunked,
     Close,
+    /// Content-Length framing, `Connection: close` announced, connection closed after the answer
+    LengthThenClose,
 }
 
 #[derive(Clone, Debug)]
@@ -262,6 +264,7 @@ impl Server {
             Framing::ContentLength => head.push_str(&format!("Content-Length: {}\r\n", plan.body.len())),
             Framing::Chunked => head.push_str("Transfer-Encoding: chunked\r\n"),
             Framing::Close => head.push_str("Connection: close\r\n"),
+            Framing::LengthThenClose => head.push_str(&format!("Content-Length: {}\r\nConnection: close\r\n", plan.body.len())),
         }
         head.push_str("\r\n");
         // wire image of the body, remembering which wire offset corresponds to which body offset
@@ -353,7 +356,7 @@ impl Server {
             }
         }
         let body_written = pos.saturating_sub(head_len).min(plan.body.len());
-        let keep = ok && !cut && plan.framing != Framing::Close && plan.status < 400;
+        let keep = ok && !cut && plan.framing != Framing::Close && plan.framing != Framing::LengthThenClose && plan.status < 400;
         (body_written, ok && !cut, keep)
     }
 }
